@@ -12,8 +12,12 @@ def pat (seed i : Nat) : UInt8 := ((seed * 131 + i * 7 + i / 251) % 256).toUInt8
 
 def patBytes (seed len : Nat) : Bytes := (List.range len).map (pat seed)
 
-def fnv1a (bs : Bytes) : UInt32 :=
-  bs.foldl (fun h b => (h ^^^ b.toUInt32) * 16777619) 2166136261
+/-- Adler-32 of the accepted bytes (zlib.adler32 on the Python side) -/
+def adler32 (bs : Bytes) : UInt32 :=
+  let (a, b) := bs.foldl (fun (p : Nat × Nat) x =>
+    let a := (p.1 + x.toNat) % 65521
+    (a, (p.2 + a) % 65521)) (1, 0)
+  (b * 65536 + a).toUInt32
 
 def hex8 (v : UInt32) : String :=
   let n := v.toNat
@@ -57,7 +61,7 @@ def nwLine (b max sched : String) (chunks : List String) : String :=
   | some be, some mx, some sc, some q =>
     let (rc, calls, st) := drive be mx { q := q, sched := sc }
     "rc=" ++ toString rc ++ " calls=" ++ toString calls ++ " out=" ++ toString st.out ++
-      " acc=" ++ toString st.acc.length ++ ":" ++ hex8 (fnv1a st.acc) ++ " ff=" ++ toString st.faults ++
+      " acc=" ++ toString st.acc.length ++ ":" ++ hex8 (adler32 st.acc) ++ " ff=" ++ toString st.faults ++
       " q=" ++ layout st.q ++ " sys=" ++
       (if st.trace.isEmpty then "-" else String.intercalate "," (st.trace.map sysStr))
   | _, _, _, _ => "bad-op"
